@@ -378,14 +378,20 @@ func c02Matchers() []c02Matcher {
 	return out
 }
 
+// c02Prelude uses every regex text of the alphabet as an (unanchored) line-filter regex first.
+func c02Prelude() {
+	vars := c02Variants()
+	for _, v := range []string{"a", "b", "ab", "a.*", ".*", ".+", "a|b", "v", "i1", "running", "id[12]", "run.*", "Up.*"} {
+		_, _ = c02Exec(c02Input{Ctrs: vars[:2], Matchers: []c02Matcher{{Label: "container", Op: "=~", Value: ".*"}}, Shape: "prelude:" + v, StartNS: 0, EndNS: 3 * sec})
+	}
+}
+
 func c02Run(r *vkit.Run) {
 	vars := c02Variants()
 	ms := c02Matchers()
 	// Non-initial state: the same texts are first used as (unanchored) line-filter regexes in this process, so
 	// that anything cached per pattern text across queries would be met in its other role by the selectors below.
-	for _, v := range []string{"a", "b", "ab", "a.*", ".*", ".+", "a|b", "v", "i1", "running", "id[12]", "run.*", "Up.*"} {
-		_, _ = c02Exec(c02Input{Ctrs: vars[:2], Matchers: []c02Matcher{{Label: "container", Op: "=~", Value: ".*"}}, Shape: "prelude:" + v, StartNS: 0, EndNS: 3 * sec})
-	}
+	c02Prelude()
 	// inventories: consecutive triples of the variant list (every variant is in exactly one), plus
 	// singletons and pairs that repeat a name (same name, different image/state).
 	var invs [][]c02Ctr
@@ -450,5 +456,5 @@ func c02Replay(r *vkit.Run, v vkit.Violation) *vkit.Violation {
 	if err := json.Unmarshal(v.Input, &in); err != nil {
 		r.HarnessError("bad input: %v", err)
 	}
-	return vkit.ReplayOne(r, func() { c02Check(r, in) })
+	return vkit.ReplayOne(r, func() { c02Prelude(); c02Check(r, in) })
 }
